@@ -1431,10 +1431,477 @@ pub static C16: CliProp = CliProp {
     extra: None,
 };
 
+
+// ------------------------------------------------------------------------------------------
+// C15: configuration resolution
+
+const LEVELS: [&str; 5] = ["", "outer", "outer/cwd", "outer/cwd/sub", "outer/cwd/sub/subsub"];
+const C15_CWD: &str = "outer/cwd";
+const TOML_NAMES: [&str; 2] = ["stylua.toml", ".stylua.toml"];
+
+#[derive(Debug, Clone, Default)]
+struct EcSection {
+    glob: String,
+    props: Vec<(String, String)>,
+}
+
+fn parse_editorconfig(text: &str) -> (bool, Vec<EcSection>) {
+    let mut root = false;
+    let mut sections: Vec<EcSection> = Vec::new();
+    for line in text.lines() {
+        let l = line.trim();
+        if l.is_empty() || l.starts_with('#') || l.starts_with(';') {
+            continue;
+        }
+        if l.starts_with('[') && l.ends_with(']') {
+            sections.push(EcSection { glob: l[1..l.len() - 1].to_string(), props: Vec::new() });
+        } else if let Some((k, v)) = l.split_once('=') {
+            let (k, v) = (k.trim().to_ascii_lowercase(), v.trim().to_string());
+            match sections.last_mut() {
+                Some(s) => s.props.push((k, v)),
+                None => {
+                    if k == "root" && v.eq_ignore_ascii_case("true") {
+                        root = true;
+                    }
+                }
+            }
+        }
+    }
+    (root, sections)
+}
+
+fn ec_glob_matches(glob: &str, file_name: &str) -> bool {
+    // only slash-free globs are generated: they match the file name in any directory
+    crate::ignore_model::seg_match(glob, file_name)
+}
+
+/// EditorConfig properties for a file in directory `dir` (root-relative) named `name`
+fn editorconfig_props(case: &CliCase, dir: &str, name: &str) -> BTreeMap<String, String> {
+    // collect .editorconfig files from the file's directory upwards until one declares root = true
+    let mut chain: Vec<Vec<EcSection>> = Vec::new();
+    let mut cur = dir.to_string();
+    loop {
+        let path = if cur.is_empty() { ".editorconfig".to_string() } else { format!("{cur}/.editorconfig") };
+        if let Some(bytes) = case.files.get(&path) {
+            let (root, sections) = parse_editorconfig(&String::from_utf8_lossy(bytes));
+            chain.push(sections);
+            if root {
+                break;
+            }
+        }
+        match cur.rsplit_once('/') {
+            Some((p, _)) => cur = p.to_string(),
+            None => {
+                if cur.is_empty() {
+                    break;
+                }
+                cur = String::new();
+            }
+        }
+    }
+    let mut props = BTreeMap::new();
+    for sections in chain.iter().rev() {
+        for s in sections {
+            if ec_glob_matches(&s.glob, name) {
+                for (k, v) in &s.props {
+                    props.insert(k.clone(), v.clone());
+                }
+            }
+        }
+    }
+    props
+}
+
+fn apply_editorconfig(mut c: sl::Config, p: &BTreeMap<String, String>) -> sl::Config {
+    let get = |k: &str| p.get(k).map(|v| v.to_ascii_lowercase());
+    match get("end_of_line").as_deref() {
+        Some("lf") | Some("cr") => c.line_endings = sl::LineEndings::Unix,
+        Some("crlf") => c.line_endings = sl::LineEndings::Windows,
+        _ => {}
+    }
+    match get("indent_size").as_deref() {
+        Some("tab") => {
+            if let Some(w) = get("tab_width").and_then(|v| v.parse::<usize>().ok()) {
+                c.indent_width = w;
+            }
+        }
+        Some(v) => {
+            if let Ok(w) = v.parse::<usize>() {
+                c.indent_width = w;
+            }
+        }
+        None => {}
+    }
+    match get("indent_style").as_deref() {
+        Some("tab") => c.indent_type = sl::IndentType::Tabs,
+        Some("space") => c.indent_type = sl::IndentType::Spaces,
+        _ => {}
+    }
+    match get("max_line_length").as_deref() {
+        Some("off") => c.column_width = usize::MAX,
+        Some(v) => {
+            if let Ok(w) = v.parse::<usize>() {
+                c.column_width = w;
+            }
+        }
+        None => {}
+    }
+    match get("quote_type").as_deref() {
+        Some("double") => c.quote_style = sl::QuoteStyle::AutoPreferDouble,
+        Some("single") => c.quote_style = sl::QuoteStyle::AutoPreferSingle,
+        _ => {}
+    }
+    match get("call_parentheses").as_deref() {
+        Some("always") => c.call_parentheses = sl::CallParenType::Always,
+        Some("nosinglestring") => c.call_parentheses = sl::CallParenType::NoSingleString,
+        Some("nosingletable") => c.call_parentheses = sl::CallParenType::NoSingleTable,
+        Some("none") => c.call_parentheses = sl::CallParenType::None,
+        _ => {}
+    }
+    match get("space_after_function_names").as_deref() {
+        Some("always") => c.space_after_function_names = sl::SpaceAfterFunctionNames::Always,
+        Some("definitions") => c.space_after_function_names = sl::SpaceAfterFunctionNames::Definitions,
+        Some("calls") => c.space_after_function_names = sl::SpaceAfterFunctionNames::Calls,
+        Some("never") => c.space_after_function_names = sl::SpaceAfterFunctionNames::Never,
+        _ => {}
+    }
+    match get("collapse_simple_statement").as_deref() {
+        Some("never") => c.collapse_simple_statement = sl::CollapseSimpleStatement::Never,
+        Some("functiononly") => c.collapse_simple_statement = sl::CollapseSimpleStatement::FunctionOnly,
+        Some("conditionalonly") => c.collapse_simple_statement = sl::CollapseSimpleStatement::ConditionalOnly,
+        Some("always") => c.collapse_simple_statement = sl::CollapseSimpleStatement::Always,
+        _ => {}
+    }
+    match get("sort_requires").as_deref() {
+        Some("true") => c.sort_requires = sl::SortRequiresConfig { enabled: true },
+        Some("false") => c.sort_requires = sl::SortRequiresConfig { enabled: false },
+        _ => {}
+    }
+    c
+}
+
+fn toml_in(case: &CliCase, dir: &str) -> Option<sl::Config> {
+    for n in TOML_NAMES {
+        let p = if dir.is_empty() { n.to_string() } else { format!("{dir}/{n}") };
+        if let Some(b) = case.files.get(&p) {
+            return toml_config(&String::from_utf8_lossy(b));
+        }
+    }
+    None
+}
+
+/// minimal reader for the stylua.toml files this harness writes (key = value lines and [sort_requires])
+fn toml_config(text: &str) -> Option<sl::Config> {
+    let mut o = OptCfg::default();
+    let mut in_sort = false;
+    for line in text.lines() {
+        let l = line.trim();
+        if l.is_empty() || l.starts_with('#') {
+            continue;
+        }
+        if l == "[sort_requires]" {
+            in_sort = true;
+            continue;
+        }
+        let (k, v) = l.split_once('=')?;
+        let (k, v) = (k.trim(), v.trim().trim_matches('"'));
+        if in_sort {
+            if k == "enabled" {
+                o.sort_requires = Some(v == "true");
+            }
+            continue;
+        }
+        use crate::cfg::*;
+        match k {
+            "syntax" => o.syntax = Syntax::from_name(v),
+            "column_width" => o.column_width = v.parse().ok(),
+            "indent_width" => o.indent_width = v.parse().ok(),
+            "line_endings" => o.line_endings = parse_enum(&[Endings::Unix, Endings::Windows], v),
+            "indent_type" => o.indent_type = parse_enum(&[Indent::Tabs, Indent::Spaces], v),
+            "quote_style" => o.quote_style = parse_enum(&QUOTES, v),
+            "call_parentheses" => o.call_parentheses = parse_enum(&CALLPARENS, v),
+            "collapse_simple_statement" => o.collapse = parse_enum(&COLLAPSE, v),
+            "space_after_function_names" => o.space_after = parse_enum(&SPACEAFTER, v),
+            _ => return None,
+        }
+    }
+    Some(o.apply(sl::Config::default()))
+}
+
+/// The configuration the README says applies to a target in directory `dir` (root-relative) named `name`
+pub fn resolve_config(case: &CliCase, args: &Args, dir: &str, name: &str) -> Option<sl::Config> {
+    let overrides = |c: sl::Config| args.opts.apply(c);
+    if let Some(p) = &args.config_path {
+        let rel = join_rel(&case.cwd, p);
+        let text = String::from_utf8_lossy(case.files.get(&rel)?).to_string();
+        return toml_config(&text).map(overrides);
+    }
+    // nearest stylua.toml / .stylua.toml walking up from the file's directory
+    let mut cur = dir.to_string();
+    loop {
+        if let Some(c) = toml_in(case, &cur) {
+            return Some(overrides(c));
+        }
+        if cur == case.cwd && !args.search_parents {
+            break;
+        }
+        match cur.rsplit_once('/') {
+            Some((p, _)) => cur = p.to_string(),
+            None => {
+                if cur.is_empty() {
+                    break;
+                }
+                cur = String::new();
+            }
+        }
+    }
+    if args.search_parents {
+        // $XDG_CONFIG_HOME, $XDG_CONFIG_HOME/stylua, $HOME/.config, $HOME/.config/stylua
+        let mut places: Vec<String> = Vec::new();
+        if let Some(x) = case.env.get("XDG_CONFIG_HOME") {
+            let x = x.trim_start_matches("$ROOT/").to_string();
+            places.push(x.clone());
+            places.push(format!("{x}/stylua"));
+        }
+        if let Some(h) = case.env.get("HOME") {
+            let h = h.trim_start_matches("$ROOT/").to_string();
+            places.push(format!("{h}/.config"));
+            places.push(format!("{h}/.config/stylua"));
+        }
+        for p in places {
+            if let Some(c) = toml_in(case, &p) {
+                return Some(overrides(c));
+            }
+        }
+    }
+    let base = overrides(sl::Config::default());
+    if args.no_editorconfig {
+        return Some(base);
+    }
+    let props = editorconfig_props(case, dir, name);
+    if props.is_empty() {
+        return Some(base);
+    }
+    Some(overrides(apply_editorconfig(base, &props)))
+}
+
+fn distinct_cfg(t: &mut Tape, width: usize) -> OptCfg {
+    // every configuration file gets its own column width, so the applied one is recognisable
+    let mut o = gen_optcfg(t, false);
+    o.column_width = Some(width);
+    o
+}
+
+fn gen_editorconfig(t: &mut Tape, root_flag: bool) -> String {
+    let mut s = String::new();
+    if root_flag {
+        s.push_str("root = true\n\n");
+    }
+    let nsec = t.pick(3);
+    for _ in 0..nsec {
+        let glob = ["*", "*.lua", "t.lua", "*.luau"][t.pick(4)];
+        s.push_str(&format!("[{glob}]\n"));
+        let n = 1 + t.pick(4);
+        for _ in 0..n {
+            let line = match t.pick(12) {
+                0 => "indent_style = space".to_string(),
+                1 => "indent_style = tab".to_string(),
+                2 => format!("indent_size = {}", [2, 3, 8][t.pick(3)]),
+                3 => format!("indent_size = tab\ntab_width = {}", [2, 6][t.pick(2)]),
+                4 => "end_of_line = crlf".to_string(),
+                5 => format!("max_line_length = {}", [30, 50, 70][t.pick(3)]),
+                6 => "max_line_length = off".to_string(),
+                7 => format!("quote_type = {}", ["single", "double", "auto"][t.pick(3)]),
+                8 => format!("call_parentheses = {}", ["none", "NoSingleTable", "always", "nosinglestring"][t.pick(4)]),
+                9 => format!("space_after_function_names = {}", ["always", "calls", "definitions", "never"][t.pick(4)]),
+                10 => format!("collapse_simple_statement = {}", ["always", "FunctionOnly", "conditionalonly"][t.pick(3)]),
+                _ => "sort_requires = true".to_string(),
+            };
+            s.push_str(&line);
+            s.push('\n');
+        }
+        s.push('\n');
+    }
+    s
+}
+
+fn gen_c15(t: &mut Tape, labels: &mut Vec<&'static str>) -> Option<CliCase> {
+    let mut case = CliCase::default();
+    case.cwd = C15_CWD.to_string();
+    for d in LEVELS {
+        if !d.is_empty() {
+            case.dirs.push(d.to_string());
+        }
+    }
+    for d in ["xdg/stylua", "home/.config/stylua", "conf"] {
+        case.dirs.push(d.to_string());
+    }
+    // toml files
+    let places: [(&str, &str); 9] = [
+        ("", "toml:above-cwd"),
+        ("outer", "toml:above-cwd"),
+        ("outer/cwd", "toml:at-cwd"),
+        ("outer/cwd/sub", "toml:below-cwd"),
+        ("outer/cwd/sub/subsub", "toml:below-cwd"),
+        ("xdg", "toml:xdg"),
+        ("xdg/stylua", "toml:xdg"),
+        ("home/.config", "toml:home"),
+        ("home/.config/stylua", "toml:home"),
+    ];
+    for (i, (dir, label)) in places.iter().enumerate() {
+        if t.chance(70) {
+            let name = TOML_NAMES[t.pick(2)];
+            let cfg = distinct_cfg(t, 41 + i);
+            let p = if dir.is_empty() { name.to_string() } else { format!("{dir}/{name}") };
+            case.files.insert(p, cfg.to_toml().into_bytes());
+            labels.push(label);
+        }
+    }
+    // editorconfig files: the sandbox root always stops the search
+    case.files.insert(".editorconfig".into(), gen_editorconfig(t, true).into_bytes());
+    for d in &LEVELS[1..] {
+        if t.chance(70) {
+            let root_flag = t.chance(30);
+            case.files.insert(format!("{d}/.editorconfig"), gen_editorconfig(t, root_flag).into_bytes());
+            labels.push("editorconfig");
+        }
+    }
+    case.env.insert("HOME".into(), "$ROOT/home".into());
+    if t.chance(200) {
+        case.env.insert("XDG_CONFIG_HOME".into(), "$ROOT/xdg".into());
+    }
+    // targets
+    for d in ["", "sub/", "sub/subsub/"] {
+        case.files.insert(format!("{C15_CWD}/{d}t.lua"), crate::cli::PROBE.as_bytes().to_vec());
+    }
+    let mut argv: Vec<String> = Vec::new();
+    if t.chance(50) {
+        let cfg = distinct_cfg(t, 55);
+        case.files.insert("conf/custom.toml".into(), cfg.to_toml().into_bytes());
+        argv.push("--config-path".into());
+        argv.push("../../conf/custom.toml".into());
+        labels.push("config-path");
+    }
+    if t.chance(100) {
+        argv.push("--search-parent-directories".into());
+        labels.push("search-parent-directories");
+    }
+    if t.chance(60) {
+        argv.push("--no-editorconfig".into());
+        labels.push("no-editorconfig");
+    }
+    if t.chance(110) {
+        // command line overrides (a few)
+        let mut o = OptCfg::default();
+        match t.pick(5) {
+            0 => o.column_width = Some(33),
+            1 => o.quote_style = Some(crate::cfg::Quotes::ForceSingle),
+            2 => o.indent_type = Some(crate::cfg::Indent::Spaces),
+            3 => {
+                o.call_parentheses = Some(crate::cfg::CallParens::None);
+                o.indent_width = Some(5);
+            }
+            _ => o.sort_requires = Some(true),
+        }
+        argv.extend(o.to_flags());
+        labels.push("cli-overrides");
+    }
+    match t.pick(6) {
+        0 => {
+            argv.push("t.lua".into());
+            argv.push("sub/t.lua".into());
+            argv.push("sub/subsub/t.lua".into());
+            labels.push("target:explicit-files");
+        }
+        1 => {
+            argv.push(".".into());
+            labels.push("target:dot");
+        }
+        2 => {
+            argv.push("sub".into());
+            labels.push("target:directory");
+        }
+        3 => {
+            argv.push("sub/subsub/t.lua".into());
+            labels.push("target:nested-file");
+        }
+        4 => {
+            case.stdin = Some(crate::cli::PROBE.as_bytes().to_vec());
+            argv.push("--stdin-filepath".into());
+            argv.push(["sub/t.lua", "sub/subsub/other.lua", "t.lua"][t.pick(3)].into());
+            argv.push("-".into());
+            labels.push("target:stdin-with-filepath");
+        }
+        _ => {
+            case.stdin = Some(crate::cli::PROBE.as_bytes().to_vec());
+            argv.push("-".into());
+            labels.push("target:stdin");
+        }
+    }
+    case.argv = argv;
+    Some(case)
+}
+
+fn c15_oracle(case: &CliCase, run: &CliRun) -> Verdict {
+    let args = parse_args(&case.argv);
+    let probe = crate::cli::PROBE;
+    let describe = |c: &sl::Config| format!("width {} indent {:?}/{} quotes {:?} calls {:?} collapse {:?} spaces {:?} endings {:?} sort {}", c.column_width, c.indent_type, c.indent_width, c.quote_style, c.call_parentheses, c.collapse_simple_statement, c.space_after_function_names, c.line_endings, c.sort_requires.enabled);
+    if case.stdin.is_some() {
+        let (dir, name) = match &args.stdin_filepath {
+            Some(p) => {
+                let rel = join_rel(&case.cwd, p);
+                match rel.rsplit_once('/') {
+                    Some((d, n)) => (d.to_string(), n.to_string()),
+                    None => (String::new(), rel),
+                }
+            }
+            None => (case.cwd.clone(), "*.lua".to_string()),
+        };
+        let Some(cfg) = resolve_config(case, &args, &dir, &name) else { return Verdict::Skip("model cannot resolve") };
+        let Some(want) = lib_format(probe, cfg) else { return Verdict::Skip("probe does not format") };
+        if run.stdout != want.as_bytes() {
+            return Verdict::Fail(format!("stdin was not formatted with the documented configuration ({}); exit {:?}; stderr: {}", describe(&cfg), run.code, String::from_utf8_lossy(&run.stderr).lines().next().unwrap_or("")));
+        }
+        return Verdict::Pass { nontrivial: true };
+    }
+    let (sel, _) = simple_selection(case, &args);
+    let mut distinct = BTreeSet::new();
+    for rel in sel.keys() {
+        let (dir, name) = match rel.rsplit_once('/') {
+            Some((d, n)) => (d.to_string(), n.to_string()),
+            None => (String::new(), rel.clone()),
+        };
+        let Some(cfg) = resolve_config(case, &args, &dir, &name) else { return Verdict::Skip("model cannot resolve") };
+        let Some(want) = lib_format(probe, cfg) else { return Verdict::Skip("probe does not format") };
+        distinct.insert(describe(&cfg));
+        let got = &run.after[rel].bytes;
+        if got != want.as_bytes() {
+            return Verdict::Fail(format!("`{rel}` was not formatted with the documented configuration ({}); exit {:?}; stderr: {}", describe(&cfg), run.code, String::from_utf8_lossy(&run.stderr).lines().next().unwrap_or("")));
+        }
+    }
+    if run.code != Some(0) {
+        return Verdict::Fail(format!("exit status {:?}; stderr: {}", run.code, String::from_utf8_lossy(&run.stderr).lines().next().unwrap_or("")));
+    }
+    Verdict::Pass { nontrivial: true }
+}
+
+pub static C15: CliProp = CliProp {
+    id: "C15",
+    rule: "E3: sandbox root/outer/cwd/sub/subsub with the working directory at `cwd`; `stylua.toml` or `.stylua.toml` at any subset of {root, outer, cwd, sub, subsub, $XDG_CONFIG_HOME, $XDG_CONFIG_HOME/stylua, $HOME/.config, $HOME/.config/stylua}, each with its own recognisable configuration (unique column width plus random options); `.editorconfig` files at any subset of the levels with sections `[*]`, `[*.lua]`, `[t.lua]`, `[*.luau]`, the documented keys and `root = true`; --config-path, --search-parent-directories, --no-editorconfig, command-line format flags; targets: explicit files at three depths, `.`, a directory, stdin with and without --stdin-filepath. Oracle: a probe program whose formatted text differs for every option value; the model resolves the configuration as documented (forced file; nearest toml up to the working directory; with the flag on to the root and then the XDG / HOME locations; else EditorConfig unless disabled, nearer files and later sections first, stopping at root = true; else defaults; command-line flags on top) and the bytes on disk / on stdout must equal the library's output for it. Non-trivial: every case (each one decides among several configuration sources).",
+    gen_case: gen_c15,
+    oracle: c15_oracle,
+    quick_cases: 16_000,
+    thorough_cases: 300_000,
+    tape_len: 400,
+    assumptions: &["targets lie in the working directory's subtree; paths contain no `..` (except the --config-path value); a directory holds at most one of stylua.toml / .stylua.toml", "EditorConfig sections use slash-free globs only"],
+    extra: None,
+};
+
 pub fn cli_prop(id: &str) -> Option<&'static CliProp> {
     match id {
         "C13" => Some(&C13),
         "C14" => Some(&C14),
+        "C15" => Some(&C15),
         "C16" => Some(&C16),
         "C17" => Some(&C17),
         "C18" => Some(&C18),
